@@ -308,10 +308,12 @@ func (ep *ExportingProcess) NewTemplateID() uint16 {
 // createAndSendIPFIXMsg takes in a set as input, creates the IPFIX message, and sends it out.
 // TODO: This method will change when we support sending multiple sets.
 func (ep *ExportingProcess) createAndSendIPFIXMsg(set entities.Set) (int, error) {
+	// seqNumber is also read by the template refresh goroutine (UDP transport).
+	seqNumber := atomic.LoadUint32(&ep.seqNumber)
 	if set.GetSetType() == entities.Data {
-		ep.seqNumber = ep.seqNumber + set.GetNumberOfRecords()
+		seqNumber = atomic.AddUint32(&ep.seqNumber, set.GetNumberOfRecords())
 	}
-	bytesSlice, err := CreateIPFIXMsg(set, ep.obsDomainID, ep.seqNumber, time.Now())
+	bytesSlice, err := CreateIPFIXMsg(set, ep.obsDomainID, seqNumber, time.Now())
 	if err != nil {
 		return 0, err
 	}
